@@ -75,7 +75,7 @@ def run(analysis: Analysis, tier: str) -> RuleResult:
     for summ in common.pmap(analysis, allocator_worker, [(v, "serial", "sync") for v in versions]):
         nonnone = [r for r in summ["rows"] if r["form"] != "none"]
         if not nonnone:
-            raise AnalysisError("C06-R1: the allocator never returns an id")
+            res.add("C06-R1", "__init__:Gateway._get_next_id / hands out ids", False, "mysensors/__init__.py", "no path of the allocator returns an id", context=summ["ctx"])
         for r in summ["rows"]:
             if r["form"] == "none":
                 res.add("C06-R1", "__init__:Gateway._get_next_id / returns None when no id is available", True, "mysensors/__init__.py", r["detail"], context=summ["ctx"])
@@ -121,6 +121,9 @@ def run(analysis: Analysis, tier: str) -> RuleResult:
     from . import c14
 
     before = len(res.obs)
+    # ... which needs: alert() really marks dirty on each of its paths, and the clean stop closes the link
+    # before its single final save (an id reserved after the last save would be handed out again after restart)
+    c14.alert_and_stop(analysis, res, "C06-R5", "C06-R5")
     c14.flag_writers(analysis, res)
     for o in res.obs[before:]:
         o.rule = "C06-R5"
